@@ -13,7 +13,9 @@ SEL_LEN = 12
 BUILTIN = {"Int", "String", "Boolean", "Float", "Any", "List", "Set", "Map", "Tuple", "Nothing"}
 # same module, sibling, prefix-collision, sub-package, foreign, nowhere (a bare name that is no class at all: the "type" the
 # analyser infers for `return x` of a local variable, or a docstring-only type name)
-TARGET_MODULES = ["pkg/m", "pkg/n", "pkg/m2", "pkg/deep/k", "ext/lib", None]
+# ... builtins: a built-in class that has no Safe-DS counterpart (bytes, object, complex)
+TARGET_MODULES = ["pkg/m", "pkg/n", "pkg/m2", "pkg/deep/k", "ext/lib", None, "builtins"]
+BUILTIN_NAMES = ["bytes", "object", "complex"]
 TARGET_NAMES = ["X", "Foo", "my_cls"]
 DECOYS = [None, ("pkg/u", "XFoo"), ("pkg/u", "X"), ("pkg/deep/u", "Foo")]
 QUALS = ["full", "partial", "bare"]
@@ -29,9 +31,13 @@ def build(sel: List[int], cur: Cur):
     # ancestor of the defining module and whose id has fewer segments but more characters (pkg/long_public_api)
     reexport = rd(sel, cur, 4)
     decoy_first = decoy is not None and rd(sel, cur, 2) == 1  # the unrelated module is analysed before the target's
-    foreign = tmod == "ext/lib"
+    foreign = tmod in ("ext/lib", "builtins")
     if foreign and (reexport or qual != "full"):
         raise OutOfRange
+    if tmod == "builtins":
+        if decoy is not None:
+            raise OutOfRange
+        tname = BUILTIN_NAMES[TARGET_NAMES.index(tname)]
     nowhere = tmod is None
     if nowhere:
         if reexport or qual != "bare":
@@ -97,6 +103,8 @@ def _cause(cfg, convert: bool) -> str:
         return "same-class-name-in-unrelated-module"
     if cfg["tmod"] == "nowhere":
         return "bare-name-of-no-class"
+    if cfg["tmod"] == "builtins":
+        return "builtin-class-without-safe-ds-counterpart"
     if cfg["qual"] != "full":
         return f"{cfg['qual']}-qualified-reference"  # only docstring-derived types are not fully qualified
     return "plain"
